@@ -65,6 +65,11 @@ Definition s_comma : str := [c_comma].
 
 Definition R := outcome (ast * list token).
 
+(* Parser::built: a node is constructed only if the tree it tops is at most MAX_DEPTH high. The Rust code tracks the height
+   incrementally (1 + max over the children, as nodes are built); the model recomputes it from the node. *)
+Definition built (e : ast) (ts : list token) : R :=
+  if MAX_DEPTH <? ast_height e then Err else Ok (e, ts).
+
 Fixpoint parse_expression (f : nat) (d : N) (ts : list token) {struct f} : R :=
   match f with O => Fuel | S f' =>
     parse_primary f' d ts >>= fun '(lhs, ts1) => parse_op f' d 0%Z lhs ts1
@@ -77,7 +82,7 @@ with parse_primary (f : nat) (d : N) (ts : list token) {struct f} : R :=
     parse_token f' (d + 1) ts >>= fun '(lhs, ts1) =>
     match ts1 with
     | TOp op :: _ =>
-        if is_postfix tbl op then advance ts1 >>= fun ts2 => Ok (APostfix lhs op, ts2)
+        if is_postfix tbl op then advance ts1 >>= fun ts2 => built (APostfix lhs op) ts2
         else Ok (lhs, ts1)
     | _ => Ok (lhs, ts1)
     end
@@ -94,19 +99,19 @@ with parse_token (f : nat) (d : N) (ts : list token) {struct f} : R :=
     | TRef n :: _ => advance ts >>= fun r => Ok (ARef n, r)
     | TFunc n :: _ =>
         advance ts >>= fun r => expect r s_lparen >>= fun r1 =>
-        if cur_is r1 s_rparen then advance r1 >>= fun r2 => Ok (AFunc n [], r2)
-        else parse_args f' d r1 [] >>= fun '(args, r2) => Ok (AFunc n args, r2)
+        if cur_is r1 s_rparen then advance r1 >>= fun r2 => built (AFunc n []) r2
+        else parse_args f' d r1 [] >>= fun '(args, r2) => built (AFunc n args) r2
     | TOp op :: _ =>
         if is_prefix tbl op then
-          advance ts >>= fun r => parse_primary f' d r >>= fun '(e, r1) => Ok (AUnary op e, r1)
+          advance ts >>= fun r => parse_primary f' d r >>= fun '(e, r1) => built (AUnary op e) r1
         else Err
     | TDelim DLParen :: _ =>
         advance ts >>= fun r => parse_expression f' d r >>= fun '(e, r1) =>
         if cur_is r1 s_rparen then advance r1 >>= fun r2 => Ok (e, r2) else Err
     | TDelim DLBrack :: _ =>
-        advance ts >>= fun r => parse_list f' d r [] >>= fun '(es, r1) => Ok (AList es, r1)
+        advance ts >>= fun r => parse_list f' d r [] >>= fun '(es, r1) => built (AList es) r1
     | TDelim DLBrace :: _ =>
-        advance ts >>= fun r => parse_map f' d r [] >>= fun '(kvs, r1) => Ok (AMap kvs, r1)
+        advance ts >>= fun r => parse_map f' d r [] >>= fun '(kvs, r1) => built (AMap kvs) r1
     | TDelim _ :: _ => Err
     | TComma :: _ | TSemi :: _ => Err
     end
@@ -175,7 +180,7 @@ with parse_op_loop (f : nat) (d : N) (prec : Z) (lhs : ast) (ts : list token) {s
             parse_expression f' (d + 1) r >>= fun '(a, r1) =>
             expect r1 s_colon >>= fun r2 =>
             parse_expression f' (d + 1) r2 >>= fun '(b, r3) =>
-            Ok (ATernary lhs a b, r3)
+            built (ATernary lhs a b) r3
         else if (l_bp <? prec)%Z then Ok (lhs, ts)
         else
           (if isnot then advance ts else Ok ts) >>= fun ts1 =>
@@ -187,7 +192,8 @@ with parse_op_loop (f : nat) (d : N) (prec : Z) (lhs : ast) (ts : list token) {s
           if MAX_DEPTH <? d + 1 then Err else
           let node := ABinary op lhs rhs' in
           let node' := if isnot then AUnary s_not node else node in
-          parse_op_loop f' (d + 1) prec node' ts4
+          built node' ts4 >>= fun '(node'', ts5) =>
+          parse_op_loop f' (d + 1) prec node'' ts5
     | _ => Ok (lhs, ts)
     end
   end.
